@@ -231,7 +231,7 @@ class Policy:
         if kind == "sites":
             prob = self.params["p"]
             if (rel, line) in self.params["sites"]:
-                self.near_site = 3
+                self.near_site = self.params.get("window", 3)
             if self.near_site:
                 self.near_site -= 1
                 prob = self.params["p_site"]
